@@ -116,7 +116,6 @@ func (n *Node) String() string {
 	return "?"
 }
 
-
 // closeDD keeps a trailing -- apart from the closing bracket: "--]" is outside the claimed grammar (DESIGN 3.1)
 func closeDD(s string) string {
 	if strings.HasSuffix(s, "--") {
